@@ -34,7 +34,7 @@ ASSUMPTIONS = ['timer queue contract (C10): actions run once, at their rounded d
 def gen_script(rng, tier):
     if rng.random() < 0.35:
         import e2e
-        sc = e2e.gen_script(rng, tier, rng.choice(['edge', 'late'] + [None] * 5))
+        sc = e2e.gen_script(rng, tier, rng.choice(['edge', 'late', 'slowpeer'] + [None] * 5))
         sc['kind'] = 'e2e'
         return sc
     steps = []
@@ -73,6 +73,18 @@ def gen_script(rng, tier):
             if rng.random() < 0.1:
                 steps.append(['lower', c, ['ok', rng.randrange(0, 100)]])     # duplicate / late reply
     steps.append(['adv', rng.choice([1, 40, 400])])
+    # tie policy (DESIGN 2.4): no instant of the script coincides with a call's exact deadline (fractional advances
+    # could add up to one); such an advance is lengthened by 0.1 ms
+    t, deadlines = 0, set()
+    for st in steps:
+        if st[0] == 'issue' and st[1]:
+            deadlines.add(t + st[1] * 1000)
+        elif st[0] == 'adv':
+            d = int(round(st[1] * 10000))
+            while t + d in deadlines:
+                d += 100
+            st[1] = d / 10000.0
+            t += d
     return {'steps': steps}
 
 
